@@ -690,6 +690,13 @@ class CommandPipeline:
 
     def resume(self, job, tee_output=True):
         self.ended = False
+        # The stop that suspended the pipeline is over: iterraw() must wait
+        # for the resumed processes again instead of returning on the stale
+        # flag that proc_untraced_waitpid() left behind.
+        self.suspended = None
+        for p in self.procs:
+            if getattr(p, "suspended", False):
+                p.suspended = False
         if xj.give_terminal_to(job["pgrp"]):
             self.term_pgid = job["pgrp"]
         xj._continue(job)
